@@ -8,89 +8,90 @@ import (
 	"github.com/gotd/td/internal/verif/shim/vsched"
 )
 
-func pt(w string) { vsched.Point(w) }
+// pt: scheduling point, then acquire+release on the variable (Go atomics are sequentially consistent).
+func pt(w string, p any) { vsched.PointS(w); vsched.AcqRel(p) }
 
 func CompareAndSwapUint32(a *uint32, o, n uint32) bool {
-	pt("a.cas")
+	pt("a.cas", a)
 	return atomic.CompareAndSwapUint32(a, o, n)
 }
 func CompareAndSwapInt32(a *int32, o, n int32) bool {
-	pt("a.cas")
+	pt("a.cas", a)
 	return atomic.CompareAndSwapInt32(a, o, n)
 }
 func CompareAndSwapInt64(a *int64, o, n int64) bool {
-	pt("a.cas")
+	pt("a.cas", a)
 	return atomic.CompareAndSwapInt64(a, o, n)
 }
 func CompareAndSwapUint64(a *uint64, o, n uint64) bool {
-	pt("a.cas")
+	pt("a.cas", a)
 	return atomic.CompareAndSwapUint64(a, o, n)
 }
-func StoreInt32(a *int32, v int32)          { pt("a.store"); atomic.StoreInt32(a, v) }
-func StoreUint32(a *uint32, v uint32)       { pt("a.store"); atomic.StoreUint32(a, v) }
-func StoreInt64(a *int64, v int64)          { pt("a.store"); atomic.StoreInt64(a, v) }
-func StoreUint64(a *uint64, v uint64)       { pt("a.store"); atomic.StoreUint64(a, v) }
-func LoadInt32(a *int32) int32              { pt("a.load"); return atomic.LoadInt32(a) }
-func LoadUint32(a *uint32) uint32           { pt("a.load"); return atomic.LoadUint32(a) }
-func LoadInt64(a *int64) int64              { pt("a.load"); return atomic.LoadInt64(a) }
-func LoadUint64(a *uint64) uint64           { pt("a.load"); return atomic.LoadUint64(a) }
-func AddInt32(a *int32, d int32) int32      { pt("a.add"); return atomic.AddInt32(a, d) }
-func AddUint32(a *uint32, d uint32) uint32  { pt("a.add"); return atomic.AddUint32(a, d) }
-func AddInt64(a *int64, d int64) int64      { pt("a.add"); return atomic.AddInt64(a, d) }
-func AddUint64(a *uint64, d uint64) uint64  { pt("a.add"); return atomic.AddUint64(a, d) }
-func SwapInt32(a *int32, v int32) int32     { pt("a.swap"); return atomic.SwapInt32(a, v) }
-func SwapInt64(a *int64, v int64) int64     { pt("a.swap"); return atomic.SwapInt64(a, v) }
-func SwapUint32(a *uint32, v uint32) uint32 { pt("a.swap"); return atomic.SwapUint32(a, v) }
+func StoreInt32(a *int32, v int32)          { pt("a.store", a); atomic.StoreInt32(a, v) }
+func StoreUint32(a *uint32, v uint32)       { pt("a.store", a); atomic.StoreUint32(a, v) }
+func StoreInt64(a *int64, v int64)          { pt("a.store", a); atomic.StoreInt64(a, v) }
+func StoreUint64(a *uint64, v uint64)       { pt("a.store", a); atomic.StoreUint64(a, v) }
+func LoadInt32(a *int32) int32              { pt("a.load", a); return atomic.LoadInt32(a) }
+func LoadUint32(a *uint32) uint32           { pt("a.load", a); return atomic.LoadUint32(a) }
+func LoadInt64(a *int64) int64              { pt("a.load", a); return atomic.LoadInt64(a) }
+func LoadUint64(a *uint64) uint64           { pt("a.load", a); return atomic.LoadUint64(a) }
+func AddInt32(a *int32, d int32) int32      { pt("a.add", a); return atomic.AddInt32(a, d) }
+func AddUint32(a *uint32, d uint32) uint32  { pt("a.add", a); return atomic.AddUint32(a, d) }
+func AddInt64(a *int64, d int64) int64      { pt("a.add", a); return atomic.AddInt64(a, d) }
+func AddUint64(a *uint64, d uint64) uint64  { pt("a.add", a); return atomic.AddUint64(a, d) }
+func SwapInt32(a *int32, v int32) int32     { pt("a.swap", a); return atomic.SwapInt32(a, v) }
+func SwapInt64(a *int64, v int64) int64     { pt("a.swap", a); return atomic.SwapInt64(a, v) }
+func SwapUint32(a *uint32, v uint32) uint32 { pt("a.swap", a); return atomic.SwapUint32(a, v) }
 
 type Bool struct{ v atomic.Bool }
 
-func (b *Bool) Load() bool                    { pt("a.load"); return b.v.Load() }
-func (b *Bool) Store(x bool)                  { pt("a.store"); b.v.Store(x) }
-func (b *Bool) Swap(x bool) bool              { pt("a.swap"); return b.v.Swap(x) }
-func (b *Bool) CompareAndSwap(o, n bool) bool { pt("a.cas"); return b.v.CompareAndSwap(o, n) }
+func (b *Bool) Load() bool                    { pt("a.load", b); return b.v.Load() }
+func (b *Bool) Store(x bool)                  { pt("a.store", b); b.v.Store(x) }
+func (b *Bool) Swap(x bool) bool              { pt("a.swap", b); return b.v.Swap(x) }
+func (b *Bool) CompareAndSwap(o, n bool) bool { pt("a.cas", b); return b.v.CompareAndSwap(o, n) }
 
 type Int32 struct{ v atomic.Int32 }
 
-func (b *Int32) Load() int32                    { pt("a.load"); return b.v.Load() }
-func (b *Int32) Store(x int32)                  { pt("a.store"); b.v.Store(x) }
-func (b *Int32) Swap(x int32) int32             { pt("a.swap"); return b.v.Swap(x) }
-func (b *Int32) CompareAndSwap(o, n int32) bool { pt("a.cas"); return b.v.CompareAndSwap(o, n) }
-func (b *Int32) Add(d int32) int32              { pt("a.add"); return b.v.Add(d) }
+func (b *Int32) Load() int32                    { pt("a.load", b); return b.v.Load() }
+func (b *Int32) Store(x int32)                  { pt("a.store", b); b.v.Store(x) }
+func (b *Int32) Swap(x int32) int32             { pt("a.swap", b); return b.v.Swap(x) }
+func (b *Int32) CompareAndSwap(o, n int32) bool { pt("a.cas", b); return b.v.CompareAndSwap(o, n) }
+func (b *Int32) Add(d int32) int32              { pt("a.add", b); return b.v.Add(d) }
 
 type Int64 struct{ v atomic.Int64 }
 
-func (b *Int64) Load() int64                    { pt("a.load"); return b.v.Load() }
-func (b *Int64) Store(x int64)                  { pt("a.store"); b.v.Store(x) }
-func (b *Int64) Swap(x int64) int64             { pt("a.swap"); return b.v.Swap(x) }
-func (b *Int64) CompareAndSwap(o, n int64) bool { pt("a.cas"); return b.v.CompareAndSwap(o, n) }
-func (b *Int64) Add(d int64) int64              { pt("a.add"); return b.v.Add(d) }
+func (b *Int64) Load() int64                    { pt("a.load", b); return b.v.Load() }
+func (b *Int64) Store(x int64)                  { pt("a.store", b); b.v.Store(x) }
+func (b *Int64) Swap(x int64) int64             { pt("a.swap", b); return b.v.Swap(x) }
+func (b *Int64) CompareAndSwap(o, n int64) bool { pt("a.cas", b); return b.v.CompareAndSwap(o, n) }
+func (b *Int64) Add(d int64) int64              { pt("a.add", b); return b.v.Add(d) }
 
 type Uint32 struct{ v atomic.Uint32 }
 
-func (b *Uint32) Load() uint32                    { pt("a.load"); return b.v.Load() }
-func (b *Uint32) Store(x uint32)                  { pt("a.store"); b.v.Store(x) }
-func (b *Uint32) Swap(x uint32) uint32            { pt("a.swap"); return b.v.Swap(x) }
-func (b *Uint32) CompareAndSwap(o, n uint32) bool { pt("a.cas"); return b.v.CompareAndSwap(o, n) }
-func (b *Uint32) Add(d uint32) uint32             { pt("a.add"); return b.v.Add(d) }
+func (b *Uint32) Load() uint32                    { pt("a.load", b); return b.v.Load() }
+func (b *Uint32) Store(x uint32)                  { pt("a.store", b); b.v.Store(x) }
+func (b *Uint32) Swap(x uint32) uint32            { pt("a.swap", b); return b.v.Swap(x) }
+func (b *Uint32) CompareAndSwap(o, n uint32) bool { pt("a.cas", b); return b.v.CompareAndSwap(o, n) }
+func (b *Uint32) Add(d uint32) uint32             { pt("a.add", b); return b.v.Add(d) }
 
 type Uint64 struct{ v atomic.Uint64 }
 
-func (b *Uint64) Load() uint64                    { pt("a.load"); return b.v.Load() }
-func (b *Uint64) Store(x uint64)                  { pt("a.store"); b.v.Store(x) }
-func (b *Uint64) Swap(x uint64) uint64            { pt("a.swap"); return b.v.Swap(x) }
-func (b *Uint64) CompareAndSwap(o, n uint64) bool { pt("a.cas"); return b.v.CompareAndSwap(o, n) }
-func (b *Uint64) Add(d uint64) uint64             { pt("a.add"); return b.v.Add(d) }
+func (b *Uint64) Load() uint64                    { pt("a.load", b); return b.v.Load() }
+func (b *Uint64) Store(x uint64)                  { pt("a.store", b); b.v.Store(x) }
+func (b *Uint64) Swap(x uint64) uint64            { pt("a.swap", b); return b.v.Swap(x) }
+func (b *Uint64) CompareAndSwap(o, n uint64) bool { pt("a.cas", b); return b.v.CompareAndSwap(o, n) }
+func (b *Uint64) Add(d uint64) uint64             { pt("a.add", b); return b.v.Add(d) }
 
 type Pointer[T any] struct{ v atomic.Pointer[T] }
 
-func (p *Pointer[T]) Load() *T                    { pt("a.load"); return p.v.Load() }
-func (p *Pointer[T]) Store(x *T)                  { pt("a.store"); p.v.Store(x) }
-func (p *Pointer[T]) Swap(x *T) *T                { pt("a.swap"); return p.v.Swap(x) }
-func (p *Pointer[T]) CompareAndSwap(o, n *T) bool { pt("a.cas"); return p.v.CompareAndSwap(o, n) }
+func (p *Pointer[T]) Load() *T                    { pt("a.load", p); return p.v.Load() }
+func (p *Pointer[T]) Store(x *T)                  { pt("a.store", p); p.v.Store(x) }
+func (p *Pointer[T]) Swap(x *T) *T                { pt("a.swap", p); return p.v.Swap(x) }
+func (p *Pointer[T]) CompareAndSwap(o, n *T) bool { pt("a.cas", p); return p.v.CompareAndSwap(o, n) }
 
 type Value struct{ v atomic.Value }
 
-func (p *Value) Load() any                    { pt("a.load"); return p.v.Load() }
-func (p *Value) Store(x any)                  { pt("a.store"); p.v.Store(x) }
-func (p *Value) Swap(x any) any               { pt("a.swap"); return p.v.Swap(x) }
-func (p *Value) CompareAndSwap(o, n any) bool { pt("a.cas"); return p.v.CompareAndSwap(o, n) }
+func (p *Value) Load() any                    { pt("a.load", p); return p.v.Load() }
+func (p *Value) Store(x any)                  { pt("a.store", p); p.v.Store(x) }
+func (p *Value) Swap(x any) any               { pt("a.swap", p); return p.v.Swap(x) }
+func (p *Value) CompareAndSwap(o, n any) bool { pt("a.cas", p); return p.v.CompareAndSwap(o, n) }
